@@ -62,6 +62,7 @@ fn main() {
         "view" => streams::gen_inst::generate_view(&mut out, &rng, thorough),
         "tlv" => streams::gen_inst::generate_tlv(&mut out, &rng, thorough),
         "timed" => streams::gen_inst::generate_timed(&mut out, &rng, thorough),
+        "threads" => streams::threads::generate(&mut out, &rng, thorough),
         "cmp" => streams::gen_bmca::generate_cmp(&mut out, &rng, thorough),
         "fml" => streams::gen_fml::generate(&mut out, &rng, thorough),
         "c07" => streams::gen_c07::generate(&mut out, &rng, thorough, &dir),
